@@ -2,6 +2,13 @@ module verifharness
 
 go 1.19
 
-require pault.ag/go/debian v0.0.0
+require (
+	github.com/kjk/lzma v0.0.0-20161016003348-3fd93898850d
+	github.com/klauspost/compress v1.16.5
+	golang.org/x/crypto v0.9.0
+	pault.ag/go/debian v0.0.0
+)
+
+require pault.ag/go/topsort v0.1.1 // indirect
 
 replace pault.ag/go/debian => /repo
